@@ -10,7 +10,6 @@ import glob, json, os, re, shutil, sys
 
 ROOT = os.path.dirname(os.path.dirname(os.path.abspath(__file__)))
 res_dir, mut_root = sys.argv[1], sys.argv[2]
-rows = []
 for f in sorted(glob.glob(os.path.join(res_dir, 'C*_m*.json'))):
     name = os.path.basename(f)[:-5]
     txt = open(f).read()
@@ -19,8 +18,11 @@ for f in sorted(glob.glob(os.path.join(res_dir, 'C*_m*.json'))):
     except Exception:
         print('unparsable', f)
         continue
-    pid, k = name.split('_')
-    src = os.path.join(mut_root, pid, 'out', k)
+    m = re.match(r'^(C\d\d)(r\d)?_(m\d+)$', name)
+    if not m:
+        continue
+    pid, tag, k = m.group(1), m.group(2) or '', m.group(3)
+    src = os.path.join(mut_root, pid, 'out' + tag[1:], k)   # round 2 deliveries are under out2/
     dp, dc = d.get('demo_patched'), d.get('demo_clean')
     ok = d.get('suite_passes') and isinstance(dp, dict) and isinstance(dc, dict) and dp.get('rc') not in (0, None) and dc.get('rc') == 0
     if not ok:
@@ -51,8 +53,14 @@ for f in sorted(glob.glob(os.path.join(res_dir, 'C*_m*.json'))):
         ],
         checks=checks)
     json.dump(meta, open(os.path.join(dst, 'meta.json'), 'w'), indent=1)
-    rows.append((name, pid, agent.get('summary', '').replace('|', '/').replace('\n', ' ')[:150], agent.get('needs', '').replace('|', '/').replace('\n', ' ')[:170], checks))
 
+rows = []
+for d in sorted(os.listdir(os.path.join(ROOT, 'seeded'))):
+    mp = os.path.join(ROOT, 'seeded', d, 'meta.json')
+    if not os.path.exists(mp):
+        continue
+    m = json.load(open(mp))
+    rows.append((d, m['property'], m.get('summary', '').replace('|', '/').replace('\n', ' ')[:150], m.get('needs', '').replace('|', '/').replace('\n', ' ')[:170], m.get('checks', {})))
 lines = ['| change | what was changed | needs | caught by (quick tier) | signatures |', '|---|---|---|---|---|']
 n_caught = 0
 for name, pid, summ, needs, checks in rows:
